@@ -83,18 +83,11 @@ def run (cmd rest : String) : Option String :=
         s!"{i}={distalCount t pre i},{distalCount t post i},{treeCount t pre i},{treeCount t post i}"))
     | _ => none
   | "fc" =>
-    -- pertree | table → id=val, forking roots id=a/b/c (admissible values)
+    -- pertree | table → id=val : flow_centrality as written
     match parts rest with
     | [pt, tb] => do
       let t ← parseTable tb
-      let pt := pt == "1"
-      pure (" ".intercalate ((sortedInts (ids t)).map fun i =>
-        match find? t i with
-        | some r =>
-          if r.parent < 0 && childCount t i ≥ 2 then
-            s!"{i}=" ++ "/".intercalate ((fcRootChoices t pt i).map toString)
-          else s!"{i}={flowCentrality t pt i}"
-        | none => s!"{i}=?"))
+      pure (showCol t (flowCentrality t (pt == "1")))
     | _ => none
   | "tips" =>
     -- table → id=tip-pair count by the definition (per tree, no fork rule) : leafFormula true
